@@ -133,7 +133,7 @@ func runSubClose(e *vlib.Env) vlib.Result {
 			kinds[i], tags[i] = "T", fmt.Sprintf("t%d", i)
 		}
 	}
-	if e.Idx%10 == 9 && depth >= 2 && r.Bool() {
+	if e.Idx%12 == 9 && depth >= 2 && r.Bool() {
 		p := r.Perm(depth)
 		kinds[p[0]], kinds[p[1]] = "M", "M"
 		tags[p[0]], tags[p[1]] = "", ""
